@@ -384,6 +384,105 @@ def rule_g(F):
     return res
 
 
+def rule_q(F):
+    """C05.Q: the refusal test covers the request. Every comparison of the usage with the limit in CaoLangAllocator::alloc
+    compares `usage that includes the pending request`: on every definition reaching the comparison the value is either
+    an explicit sum with the request size, or a read of `allocated` taken after the request was charged to it (fetch_add
+    dominating the read). A test on the survivors alone admits a request that takes the accounted usage past the limit."""
+    res = []
+    fa = F.fn(ALLOC)
+    cfg = fa.cfg
+    du = DefUse(fa)
+    charges = atomic_calls(fa, ("fetch_add",), "allocated")
+
+    def req_derived(l, at, depth=0):
+        """is local l computed from the Layout (size/align) only?"""
+        leaves = slice_leaves(fa, du, l, use_block=at)
+        if not leaves:
+            return False
+        for lf in leaves:
+            if lf[0] == "call" and any(n.startswith("std::alloc::Layout::") for n in callee_names(lf[2]["func"])):
+                continue
+            if lf[0] == "const":
+                continue
+            return False
+        return any(lf[0] == "call" for lf in leaves)
+
+    charged_blocks = [bi for bi, t in charges if op_local(t["args"][1]) is not None and req_derived(op_local(t["args"][1]), bi)]
+
+    def includes(l, at, depth=0, seen=None):
+        """every definition of l reaching block `at` carries the request; returns (bool, why)"""
+        seen = seen or set()
+        if depth > 10 or (l, at) in seen:
+            return False, "cyclic definition"
+        seen = seen | {(l, at)}
+        defs = reaching(fa, du, l, at)
+        if not defs:
+            return False, "no definition"
+        for (bi, si, kind, payload) in defs:
+            if kind == "call":
+                names = callee_names(payload["func"])
+                a0 = op_local(payload["args"][0]) if payload["args"] else None
+                if any(n.startswith("std::sync::atomic::Atomic") and n.rsplit("::", 1)[-1] == "load" for n in names) and \
+                        a0 is not None and mu.ref_of_field_chain(fa, du, a0, ["allocated"]):
+                    if any(c != bi and cfg.dominates(c, bi) for c in charged_blocks):
+                        continue
+                    return False, "the value of `allocated` read at line %s does not contain the request (it is charged later or never)" % payload.get("ln")
+                return False, "call result %s" % (names[0] if names else "?")
+            rv = payload["rv"]
+            k = rv["k"]
+            if k in ("use", "cast"):
+                p = op_place(rv["op"])
+                if p is None:
+                    return False, "constant"
+                good, why = includes(p["l"], bi, depth + 1, seen)
+                if not good:
+                    return False, why
+            elif k == "bin" and rv["op"] in ("Add", "AddWithOverflow", "AddUnchecked"):
+                ls = [op_local(rv["l"]), op_local(rv["r"])]
+                if any(x is not None and req_derived(x, bi) for x in ls):
+                    continue
+                sub = [includes(x, bi, depth + 1, seen) for x in ls if x is not None]
+                if not any(g for g, _ in sub):
+                    return False, (sub[0][1] if sub else "sum of constants")
+            else:
+                return False, "computed by %s" % (rv.get("op") or k)
+        return True, ""
+
+    n = 0
+    for bi, b in enumerate(fa.blocks):
+        if bi not in cfg.reach:
+            continue
+        for st in b["stmts"]:
+            if st["k"] != "assign" or st["rv"]["k"] != "bin" or st["rv"]["op"] not in ("Gt", "Ge", "Lt", "Le"):
+                continue
+            sides = [op_local(st["rv"]["l"]), op_local(st["rv"]["r"])]
+            if None in sides:
+                continue
+
+            def is_limit(l):
+                lv = slice_leaves(fa, du, l, use_block=bi)
+                return bool(lv) and all(lf[0] == "call" and any(n.rsplit("::", 1)[-1] == "load" for n in callee_names(lf[2]["func"])) and
+                                        op_local(lf[2]["args"][0]) is not None and
+                                        mu.ref_of_field_chain(fa, du, op_local(lf[2]["args"][0]), ["limit"]) for lf in lv)
+            if is_limit(sides[0]) == is_limit(sides[1]):
+                continue
+            usage = sides[1] if is_limit(sides[0]) else sides[0]
+            key = "C05/Q/alloc/limit-test%s-includes-the-request" % ("" if n == 0 else "#%d" % n)
+            n += 1
+            good, why = includes(usage, bi)
+            if good:
+                res.append(ok("C05.Q", key, fa.loc(st.get("ln")), "the usage compared with the limit contains the request on every reaching definition"))
+            else:
+                res.append(bad("C05.Q", key, fa.loc(st.get("ln")),
+                               "CaoLangAllocator::alloc compares a usage with the limit that does not contain the pending request (%s): after a "
+                               "collection the survivors alone are tested, the request is then granted and charged, and the accounted usage "
+                               "exceeds the configured limit by up to one request" % why))
+    if n < 1:
+        raise AnchorMissing("comparisons of the usage with the limit in CaoLangAllocator::alloc (found %d)" % n)
+    return res
+
+
 def is_alloc(t):
     return any(n in (ALLOC, "alloc::Allocator::alloc") or n.endswith("as alloc::Allocator>::alloc") for n in callee_names(t["func"]))
 
@@ -709,6 +808,7 @@ RULES = [
     Rule("C05.A", rule_a, 5, "charge symmetry and who-may-write of the allocator counters"),
     Rule("C05.F", rule_f, 1, "a failed allocation refunds its charge"),
     Rule("C05.G", rule_g, 2, "collect before refusing; threshold from post-collection usage"),
+    Rule("C05.Q", rule_q, 1, "the limit test covers survivors plus the pending request"),
     Rule("C05.O", rule_o, 6, "object cells are owned or released on every exit of init_*"),
     Rule("C05.L", rule_l, 14, "alloc/dealloc layout symmetry"),
     Rule("C05.R", rule_r, 3, "reallocation frees the old storage with the old capacity's layout"),
